@@ -110,15 +110,15 @@ def scenarios(tier):
     S.append(mk("deferred-gets1-fine0", cfg("deferred", 0, 1 if q else 2, (0,), gets=G1), max_depth=100, max_states=500000))
     S.append(mk("deferred-gets2a-fine0", cfg("deferred", 0, 1, (0,), gets=G2[:1]), max_depth=100, max_states=500000))
     S.append(mk("deferred-gets2b-fine0", cfg("deferred", 0, 2, (0,), gets=G2[1:]), max_depth=100, max_states=500000))
-    S.append(mk("deferred-turns-dev3", cfg("deferred", 1, 2, (0, 1), drops=(1, 1), explored=TURN, peer_close=True), dev_bound=3, max_depth=250))
-    S.append(mk("delegate-dev3-faults", cfg("delegate", 1, 2, (0, 1), drops=(1, 1), reorder=1, dup=1, peer_close=True), dev_bound=3, max_depth=250))
+    S.append(mk("deferred-turns-dev2", cfg("deferred", 1, 2, (0, 1), drops=(1, 1), explored=TURN, peer_close=True), dev_bound=2, max_depth=250))
+    S.append(mk("delegate-dev2-faults", cfg("delegate", 1, 2, (0, 1), drops=(1, 1), reorder=1, dup=1, peer_close=True), dev_bound=2, max_depth=250))
     if not q:
         S.append(mk("deferred-gets2-fine0", cfg("deferred", 0, 2, (0,), gets=G2), max_depth=100, max_states=4000000))
         S.append(mk("deferred-fine0-close-drop1", cfg("deferred", 1, 2, (0,), drops=(1, 0)), max_depth=120, max_states=4000000))
         S.append(mk("deferred-fine1-peerclose", cfg("deferred", 1, 1, (1,), peer_close=True), max_depth=120, max_states=4000000))
         S.append(mk("deferred-gets1-turns-dev3", cfg("deferred", 0, 2, (0, 1), gets=G1, explored=TURN), dev_bound=3, max_depth=300))
-        S.append(mk("deferred-turns-dev4", cfg("deferred", 1, 2, (0, 1), drops=(1, 1), explored=TURN, peer_close=True), dev_bound=4, max_depth=300))
-        S.append(mk("delegate-dev4-faults", cfg("delegate", 2, 2, (0, 1), drops=(2, 1), reorder=2, dup=1, peer_close=True), dev_bound=4, max_depth=300))
+        S.append(mk("deferred-turns-dev3", cfg("deferred", 1, 2, (0, 1), drops=(1, 1), explored=TURN, peer_close=True), dev_bound=3, max_depth=300))
+        S.append(mk("delegate-dev3-faults", cfg("delegate", 2, 2, (0, 1), drops=(2, 1), reorder=2, dup=1, peer_close=True), dev_bound=3, max_depth=300))
     return S
 
 
